@@ -460,7 +460,11 @@ func VH_C01_History(cfg, axis int) {
 		if tail != 0 {
 			// a statement logged outside BEGIN..COMMIT is a transaction of its own
 			ddl := c1Tx{now: boundary, commitTS: vhU32(), file: ddlFile}
-			sql := "create table x" + string(rune('0'+t)) + " (a int)"
+			// the statement kinds the library passes on as changes of their own, one per ending
+			sql := []string{"", "create table x0 (a int)", "rename table x0 to x1", "alter table x1 add b int", "drop table x1"}[tail%5]
+			if t > 0 {
+				sql += " /* " + string(rune('0'+t)) + " */"
+			}
 			ddl.next = int64(query(sql, ddl.commitTS))
 			ddl.changes = []c1Change{{kind: kQuery, sql: sql, ts: ddl.commitTS}}
 			boundary = ddl.next
@@ -495,7 +499,8 @@ func VH_C01_History(cfg, axis int) {
 		for i, wc := range want.changes {
 			ev := t.Events[i]
 			if wc.kind == kQuery {
-				vhAssert(ev.Type == StatementCreate, "change kind")
+				wantType := map[byte]StatementType{'c': StatementCreate, 'r': StatementRename, 'a': StatementAlter, 'd': StatementDrop}[wc.sql[0]]
+				vhAssert(ev.Type == wantType, "change kind")
 				vhAssert(ev.Query.SQL == wc.sql, "SQL text")
 				vhAssert(ev.Timestamp == int64(wc.ts), "event timestamp")
 				continue
